@@ -3,13 +3,13 @@ import json, os, re
 import vcheck as V
 from props import common
 
-THEOREMS = ["C08_partial_before", "C08_partial_after", "C08_refuted"]
+THEOREMS = ["C08_holds", "C08_start_undoes_partial_commit", "C08_start_keeps_full_commit", "C08_reported_height", "C08_replay_succeeds", "C08_history",
+            "C08_without_rollback_refuted"]
 # durable-write events (verif hook) -> number of version-bearing writes completed (Crash.write_order)
 EVENT_K = {"mid-block": 0, "before-commit": 0, "after:gov_params": 1, "after:proposal": 2, "after:frozen_proposal": 3, "after:accounts": 4,
            "after:delegatees": 5, "after:frozen": 6, "after:rewards": 7, "after:meta:rh": 7, "after:evm:trie": 7, "after:evm:root": 8,
            "after:meta:bc": 9, "after:meta:bh": 9}
-UNSAFE = {"after:gov_params", "after:proposal", "after:frozen_proposal", "after:accounts", "after:delegatees", "after:frozen", "after:rewards",
-          "after:meta:rh", "after:evm:trie", "after:evm:root"}
+
 
 
 def site_of(outcome, detail):
@@ -30,9 +30,9 @@ def run(ctx):
     res = common.app_check(ctx, "C08", "theories/Props/C08.v", THEOREMS, codes=[10, 11, 12], pred="(fun _ => true)",
                            extra_assume=["'the process dies' = the data directory as it is right after a durable write returned (copied from inside the verif hook); power loss (unsynced leveldb writes) is outside the model",
                                          "recovery is Tendermint's handshake as the harness plays it: Info, then replay of the blocks above the reported height, then one more block",
-                                         "Crash.v abstracts the stores to version numbers; which versions a real store opens at is what the experiment checks"],
+                                         "Crash.v models a store as the list of contents it saved and a block as a function from the previous contents of all stores to the new ones; that the real stores open at the modelled versions and that the replayed blocks answer and hash as on the uncrashed node is what the experiment checks on every run"],
                            profile="crash", histories=(3 if ctx.quick() else 30), blocks=(14 if ctx.quick() else 24),
-                           nontrivial_rule="for chosen blocks (one of them block 10, where the reward-hash record is written) the data directory is snapshotted mid-block, before Commit and after every durable write of Commit; a real node is started on each snapshot, the interrupted block is replayed and one more block is run; outcomes are compared with Crash.v's prediction")
+                           nontrivial_rule="for chosen blocks (among them block 1, where nothing is committed yet and consensus initialises the chain again, and block 10, where the reward-hash record is written) the data directory is snapshotted mid-block, before Commit and after every durable write of Commit; a real node is started on each snapshot, the interrupted block is replayed and one more block is run; outcomes are compared with Crash.v's prediction")
     if res is None:
         return
     st = ctx.app_stats
@@ -43,17 +43,15 @@ def run(ctx):
         if not m:
             continue
         point, outcome, detail = m.group(3), m.group(4), m.group(5)
-        k = EVENT_K.get(point)
+        k = EVENT_K.get(point.split("+")[-1] if point.startswith("double:") else point)   # a second crash during the replay: judged by its last write
         if k is None:
             V.violation(ctx, "unknown-durable-write:" + point, {"kind": "durable-write-not-in-the-model", "what": line}, nofail=True)
             continue
         obs.append((k, site_of(outcome, detail), line))
         if outcome != "ok":
-            if point in UNSAFE:
-                V.violation(ctx, "crash-" + point, {"kind": "crash-point-does-not-recover", "theorem": "C08_refuted", "what": line})
-            else:
-                found = True
-                V.violation(ctx, "crash-" + point, {"kind": "crash-point-does-not-recover", "theorem": "C08_partial_before/after", "what": line})
+            found = True
+            V.violation(ctx, "crash-" + point, {"kind": "crash-point-does-not-recover", "theorem": "C08_holds / C08_history", "what": line,
+                                                "replay": "start a node on the data directory as it is right after this durable write of the named block (vh app -profile crash reproduces it)"})
     f = os.path.join(ctx.scratch, "cases_crash.v")
     with open(f, "w") as fh:
         fh.write("From Rigo Require Import Base Crash.\nFrom stdpp Require Import list.\nLocal Open Scope Z_scope.\n")
